@@ -58,6 +58,22 @@ Proof.
   split; [left; reflexivity|]. split; [reflexivity|]. split; [exists 16; split; reflexivity|].
   right. right. repeat split.
 Qed.
+(* GNU stubs (S2K specifier 101: no secret / divert to card): the reader gets back the stub the writer meant, the empty serial
+   number included -- since repair 05bf06b the length octet of the serial is written whenever the extension is 2 *)
+Theorem C06_s2k_parse_emit_gnu : forall u a ext serial rest, wf_gnu u a ext serial ->
+  s2k_parse (blob_emit (BGnu u a ext serial rest)) = Some (inr (BGnu u a ext serial rest), []).
+Proof. exact s2k_parse_emit_gnu. Qed.
+Print Assumptions C06_s2k_parse_emit_gnu.
+Example C06_wf_gnu_inhabited : wf_gnu 255 0 2 [] /\ wf_gnu 254 0 1 [] /\ wf_gnu 255 0 2 [1; 2; 3].
+Proof.
+  repeat split; try (left; reflexivity); try (right; reflexivity);
+    try (left; split; reflexivity); right; (split; [reflexivity | cbn; repeat constructor]).
+Qed.
+(* the rule before the repair (length octet only for a non-empty serial) does not round-trip *)
+Theorem C06_s2k_parse_emit_gnu_old_refuted : exists u a ext serial rest, wf_gnu u a ext serial /\
+  s2k_parse (s2k_emit_gnu_old u a ext serial ++ rest) <> Some (inr (BGnu u a ext serial rest), []).
+Proof. exact s2k_parse_emit_gnu_old_refuted. Qed.
+Print Assumptions C06_s2k_parse_emit_gnu_old_refuted.
 
 (* reader o writer on the octets: parsing what the writer emitted and decrypting with the passphrase gives the integers back *)
 Theorem C06_reader_recovers_written : forall (cfb_enc cfb_dec : prim4) (sha1 : bytes -> bytes) (s2k : s2kfn),
@@ -91,8 +107,8 @@ Print Assumptions C06_gate_255_iff.
 (* ---- the lock automaton over arbitrary histories ---- *)
 (* [inv]: no real unlock scope open  ->  every protected packet has all its secret fields zero.
    It holds for every freshly parsed key (empty scope stack, protected packets parsed with zero fields) and is kept by
-   EVERY operation: protect, enter (good / bad passphrase / unprotected subkey half-way), exit, exception in scope,
-   sign, decrypt, export, re-import -- hence after every interleaving. *)
+   EVERY operation: protect (accepted or refused), enter (good / bad passphrase, unprotected subkeys passed over), exit,
+   exception in scope, sign, decrypt, export, re-import, add_subkey -- hence after every interleaving. *)
 Theorem C06_inv_all_histories : forall (cfb_enc cfb_dec : prim4) (sha1 : bytes -> bytes) (s2k : s2kfn) ops st,
   inv st = true -> inv (run cfb_enc cfb_dec sha1 s2k ops st) = true.
 Proof. exact inv_run. Qed.
@@ -106,32 +122,70 @@ Example C06_inv_parsed_key : forall bl ms chk,
          k_scopes := [] |} = true.
 Proof. reflexivity. Qed.
 
-(* every exit of a real unlock scope clears every packet, whatever else is open *)
+(* every exit of a real unlock scope clears every PROTECTED packet, whatever else is open; key material that is not protected
+   (there is no ciphertext to recover it from) is left alone: [relock c = if protected c then clear c else c] (repair e967622) *)
 Theorem C06_exit_clears : forall (cfb_enc cfb_dec : prim4) (sha1 : bytes -> bytes) (s2k : s2kfn) st o s,
   exit_op o -> k_scopes st = true :: s ->
-  fst (step cfb_enc cfb_dec sha1 s2k st o) = {| k_pkts := map clear (k_pkts st); k_scopes := s |}.
+  fst (step cfb_enc cfb_dec sha1 s2k st o) = {| k_pkts := map relock (k_pkts st); k_scopes := s |}.
 Proof. exact exit_clears. Qed.
 Print Assumptions C06_exit_clears.
+Theorem C06_relock_spec : forall c, (protected c = true -> relock c = clear c /\ all_zero (relock c) = true) /\ (protected c = false -> relock c = c).
+Proof. exact relock_spec. Qed.
+Print Assumptions C06_relock_spec.
+(* the statement before the repair -- every packet cleared -- is false of the repaired code *)
+Theorem C06_exit_clears_all_old_refuted : forall (cfb_enc cfb_dec : prim4) (sha1 : bytes -> bytes) (s2k : s2kfn),
+  exists st s, k_scopes st = true :: s /\
+  fst (step cfb_enc cfb_dec sha1 s2k st OExit) <> {| k_pkts := map clear (k_pkts st); k_scopes := s |}.
+Proof. exact exit_clears_all_old_refuted. Qed.
+Print Assumptions C06_exit_clears_all_old_refuted.
+(* the witness of e967622: a subkey attached with add_subkey inside the scope keeps its secret integers when the scope ends *)
+Theorem C06_subkey_added_in_scope_survives : forall (cfb_enc cfb_dec : prim4) (sha1 : bytes -> bytes) (s2k : s2kfn) st ms chk o s,
+  exit_op o -> k_scopes st = true :: s ->
+  fst (step cfb_enc cfb_dec sha1 s2k (fst (step cfb_enc cfb_dec sha1 s2k st (OAddSub ms chk))) o) =
+  {| k_pkts := map relock (k_pkts st) ++ [{| p_blob := None; p_fields := ms; p_chk := chk |}]; k_scopes := s |}.
+Proof. exact subkey_added_in_scope_survives. Qed.
+Print Assumptions C06_subkey_added_in_scope_survives.
+(* over ANY history without protect / add_subkey (enter with any passphrase, exits, exceptions, sign, decrypt, export, re-import):
+   no at-rest form changes and key material that is not protected is never touched *)
+Theorem C06_unprotected_untouched : forall (cfb_enc cfb_dec : prim4) (sha1 : bytes -> bytes) (s2k : s2kfn) ops st,
+  forallb keeps_pkts ops = true ->
+  Forall2 (fun c c' => p_blob c' = p_blob c /\ (protected c = false -> c' = c)) (k_pkts st) (k_pkts (run cfb_enc cfb_dec sha1 s2k ops st)).
+Proof. exact unprotected_untouched. Qed.
+Print Assumptions C06_unprotected_untouched.
+Example C06_keeps_pkts_ops : forallb keeps_pkts [OEnter [1]; OSign 0; ORaiseInScope; OEnter [2]; ODecrypt 1; OExport; OExit; OReimport] = true.
+Proof. reflexivity. Qed.
 
 (* `with key.unlock(p): body` left normally or by an exception -- including the case where entering fails half-way
-   through the subkeys (then the finally block has already cleared everything): all secret fields are zero, every protected
-   packet is Locked, and (when the scope was entered) the scope stack is what it was *)
+   through the subkeys (then the finally block has already cleared the protected packets): every protected packet has all its
+   secret fields zero and is Locked, and (when the scope was entered) the scope stack is what it was.  The body may protect
+   (accepted or refused cipher), sign, decrypt, export and attach subkeys.  (Before e967622 the conclusion was "ALL secret
+   fields are zero", which destroyed unprotected subkeys: C06_exit_clears_all_old_refuted.) *)
 Theorem C06_scope_exit_locks : forall (cfb_enc cfb_dec : prim4) (sha1 : bytes -> bytes) (s2k : s2kfn) st0 p body o,
   exit_op o -> forallb scope_neutral body = true -> primary_protected (k_pkts st0) = true ->
   let st := run cfb_enc cfb_dec sha1 s2k (OEnter p :: body ++ [o]) st0 in
-  forallb all_zero (k_pkts st) = true /\
-  (forall c, In c (k_pkts st) -> protected c = true -> exists b, view c = Locked b) /\
+  forallb locked_or_unprot (k_pkts st) = true /\
+  (forall c, In c (k_pkts st) -> protected c = true -> all_zero c = true /\ exists b, view c = Locked b) /\
   (forall k', enter_pkts cfb_dec sha1 s2k p (k_pkts st0) = inr k' -> k_scopes st = k_scopes st0).
 Proof. exact scope_exit_locks. Qed.
 Print Assumptions C06_scope_exit_locks.
-Example C06_scope_neutral_body : forallb scope_neutral [OSign 0; ODecrypt 1; OExport; OProtect [1] 9 8 255 []] = true.
+Example C06_scope_neutral_body : forallb scope_neutral [OSign 0; ODecrypt 1; OExport; OProtect [1] 9 8 255 []; OAddSub [7] [0; 8]; OProtect [1] 1 8 255 []] = true.
 Proof. reflexivity. Qed.
 
 Theorem C06_failed_enter_clears : forall (cfb_enc cfb_dec : prim4) (sha1 : bytes -> bytes) (s2k : s2kfn) st pass kind,
   primary_protected (k_pkts st) = true -> enter_pkts cfb_dec sha1 s2k pass (k_pkts st) = inl kind ->
-  step cfb_enc cfb_dec sha1 s2k st (OEnter pass) = ({| k_pkts := map clear (k_pkts st); k_scopes := k_scopes st |}, BRaised kind).
+  step cfb_enc cfb_dec sha1 s2k st (OEnter pass) = ({| k_pkts := map relock (k_pkts st); k_scopes := k_scopes st |}, BRaised kind).
 Proof. exact failed_enter_clears. Qed.
 Print Assumptions C06_failed_enter_clears.
+(* entering passes over key material that is not protected (repair e967622); before the repair such a packet raised TypeError *)
+Theorem C06_enter_skips_unprotected : forall (cfb_dec : prim4) (sha1 : bytes -> bytes) (s2k : s2kfn) pass c r, p_blob c = None ->
+  enter_pkts cfb_dec sha1 s2k pass (c :: r) =
+  match enter_pkts cfb_dec sha1 s2k pass r with inr r' => inr (c :: r') | inl k => inl k end.
+Proof. exact enter_skips_unprotected. Qed.
+Print Assumptions C06_enter_skips_unprotected.
+Theorem C06_enter_unprotected_raises_old_refuted : forall (cfb_dec : prim4) (sha1 : bytes -> bytes) (s2k : s2kfn),
+  exists c, p_blob c = None /\ forall pass, enter_pkts cfb_dec sha1 s2k pass [c] <> inl 2.
+Proof. exact enter_unprotected_raises_old_refuted. Qed.
+Print Assumptions C06_enter_unprotected_raises_old_refuted.
 
 (* a locked key refuses private operations: directly, and after any history that leaves no real scope open *)
 Theorem C06_locked_refuses : forall (cfb_enc cfb_dec : prim4) (sha1 : bytes -> bytes) (s2k : s2kfn) st c rest i,
@@ -154,7 +208,7 @@ Theorem C06_bad_gate_raises : forall (cfb_dec : prim4) (sha1 : bytes -> bytes) (
 Proof. exact bad_gate_raises. Qed.
 Print Assumptions C06_bad_gate_raises.
 Theorem C06_wrong_pass_stays_locked : forall (cfb_enc cfb_dec : prim4) (sha1 : bytes -> bytes) (s2k : s2kfn) st pass kind,
-  primary_protected (k_pkts st) = true -> forallb all_zero (k_pkts st) = true ->
+  primary_protected (k_pkts st) = true -> forallb locked_or_unprot (k_pkts st) = true ->
   enter_pkts cfb_dec sha1 s2k pass (k_pkts st) = inl kind ->
   step cfb_enc cfb_dec sha1 s2k st (OEnter pass) = (st, BRaised kind).
 Proof. exact wrong_pass_stays_locked. Qed.
@@ -169,6 +223,39 @@ Theorem C06_protect_then_enter : forall (cfb_enc cfb_dec : prim4) (sha1 : bytes 
              map p_blob k' = map p_blob (protect_pkts cfb_enc sha1 s2k pass alg halg count rnd k).
 Proof. exact protect_then_enter. Qed.
 Print Assumptions C06_protect_then_enter.
+(* a protected primary with subkeys that are not protected unlocks: the protected part is restored, the rest is as it was *)
+Theorem C06_mixed_key_enters : forall (cfb_enc cfb_dec : prim4) (sha1 : bytes -> bytes) (s2k : s2kfn),
+  (forall a k iv x, cfb_dec a k iv (cfb_enc a k iv x) = x) -> (forall x, length (sha1 x) = 20%nat) ->
+  forall pass alg halg count rnd c subs, wf_mpis (p_fields c) -> Forall (fun s => p_blob s = None) subs ->
+  enter_pkts cfb_dec sha1 s2k pass (protect_pkt cfb_enc sha1 s2k pass alg halg count rnd c :: subs) =
+  inr ({| p_blob := p_blob (protect_pkt cfb_enc sha1 s2k pass alg halg count rnd c); p_fields := p_fields c; p_chk := p_chk c |} :: subs).
+Proof. exact mixed_key_enters. Qed.
+Print Assumptions C06_mixed_key_enters.
+
+(* ---- a refused protect (Plaintext, IDEA, Twofish256) leaves the key unchanged (repair a3ce830): the state is the same, so
+   is every later observation -- the export octets, and which passphrase opens the key ---- *)
+Theorem C06_refused_protect_unchanged : forall (cfb_enc cfb_dec : prim4) (sha1 : bytes -> bytes) (s2k : s2kfn) st pass alg halg count rnd,
+  can_encrypt alg = false ->
+  fst (step cfb_enc cfb_dec sha1 s2k st (OProtect pass alg halg count rnd)) = st /\
+  (snd (step cfb_enc cfb_dec sha1 s2k st (OProtect pass alg halg count rnd)) = BWarned \/
+   snd (step cfb_enc cfb_dec sha1 s2k st (OProtect pass alg halg count rnd)) = BRaised 2).
+Proof. exact refused_protect_unchanged. Qed.
+Print Assumptions C06_refused_protect_unchanged.
+Theorem C06_refused_protect_invisible : forall (cfb_enc cfb_dec : prim4) (sha1 : bytes -> bytes) (s2k : s2kfn) st pass alg halg count rnd ops,
+  can_encrypt alg = false ->
+  run cfb_enc cfb_dec sha1 s2k (OProtect pass alg halg count rnd :: ops) st = run cfb_enc cfb_dec sha1 s2k ops st /\
+  run_obs cfb_enc cfb_dec sha1 s2k ops (fst (step cfb_enc cfb_dec sha1 s2k st (OProtect pass alg halg count rnd))) = run_obs cfb_enc cfb_dec sha1 s2k ops st.
+Proof. exact refused_protect_invisible. Qed.
+Print Assumptions C06_refused_protect_invisible.
+Theorem C06_accepted_protect : forall (cfb_enc cfb_dec : prim4) (sha1 : bytes -> bytes) (s2k : s2kfn) st pass alg halg count rnd,
+  can_encrypt alg = true -> primary_protected (k_pkts st) && negb (primary_unlocked (k_pkts st)) = false ->
+  step cfb_enc cfb_dec sha1 s2k st (OProtect pass alg halg count rnd) =
+  ({| k_pkts := protect_pkts cfb_enc sha1 s2k pass alg halg count rnd (k_pkts st); k_scopes := k_scopes st |}, BDone).
+Proof. exact accepted_protect. Qed.
+Print Assumptions C06_accepted_protect.
+Example C06_can_encrypt_table : map can_encrypt [0; 1; 2; 3; 4; 7; 8; 9; 10; 11; 12; 13]
+  = [false; false; true; true; true; true; true; true; false; true; true; true].
+Proof. reflexivity. Qed.
 
 (* ---- export of a protected packet = public header octets + ciphertext: after ANY history, what is written for a protected
    packet is the value of a term in which no secret integer occurs outside the plaintext of a CFB encryption ---- *)
